@@ -26,7 +26,8 @@ ENCODED = [("traits/ctraits.c", ["has_traits_setattro", "setattr_trait", "setatt
            ("traits/trait_notifiers.py", ["_change_accepted", "TraitChangeNotifyWrapper.__call__",
                                           "StaticTraitChangeNotifyWrapper.__call__"]),
            ("traits/observation/_has_traits_helpers.py", ["ctrait_prevent_event"]),
-           ("traits/observation/_trait_event_notifier.py", ["TraitEventNotifier.__call__"])]
+           ("traits/observation/_trait_event_notifier.py", ["TraitEventNotifier.__call__"]),
+           ("traits/has_traits.py", ["HasTraits._trait_listener", "HasTraits.add_trait_listener"])]
 EXPLANATION = ("Bounded histories (k<=2 assignments, quick; 3 thorough) through the interpreted C assignment path with the real Python "
                "notifier wrappers; value payloads are z3 Ints / Float64s so equal-but-not-identical, NaN and raising comparisons are "
                "decided by the solver; comparison modes, trait kinds, which handler raises are explored exhaustively.")
